@@ -26,11 +26,33 @@ Theorem sends_and_receipts_any : forall (sparse : bool) ops n w d kinds eps nspe
       exists gh, nth_error gs (Z.to_nat pl) = Some gh /\ 0 <= f < hlen (fst gh) /\ hval (fst gh) f = v) /\
     (forall pl e gh f, 0 <= pl -> nth_error kinds (Z.to_nat pl) = Some (KRemote e) ->
       nth_error gs (Z.to_nat pl) = Some gh -> 0 <= f < hlen (fst gh) -> In (SRemote pl f (hval (fst gh) f)) ops) /\
-    ps_kinds p = kinds.
+    ps_kinds p = kinds /\ OB p gs.
 Proof.
   intros [|].
   - exact (sparse_sends_and_receipts predict predict_idem predict_zero).
   - exact (sends_and_receipts predict predict_idem predict_zero).
+Qed.
+
+(* the session's own buffers after any run inside the space: every input queue holds between 0 and
+   INPUT_QUEUE_LENGTH inputs, nothing is left in outgoing_local_inputs between calls, and every frame a local
+   player's queue holds has been handed to the remote endpoints *)
+Theorem session_buffers_bounded : forall (sparse : bool) ops n w d kinds eps nspec p outs,
+  1 <= w -> 0 <= d -> w + d + 3 <= QLEN -> 0 < n -> Z.of_nat (length kinds) = n -> players_only kinds ->
+  srun_in predict (session_start n w sparse d kinds eps nspec) ops = Ok (p, outs) ->
+  Forall (fun q => 0 <= q_length q <= QLEN) (s_queues (ps_sync p)) /\
+  (ps_remotes p <> [] -> local_handles p <> [] -> ps_outgoing p = []) /\
+  exists gs, QSg sparse w d p gs /\ OB p gs.
+Proof.
+  intros sparse ops n w d kinds eps nspec p outs Hw Hd Hc Hn Hl Hp H.
+  destruct (sends_and_receipts_any sparse ops n w d kinds eps nspec p outs Hw Hd Hc Hn Hl Hp H)
+    as (g & gs & _ & HQS & _ & _ & _ & _ & _ & _ & HB).
+  split; [|split; [intros Hr Hlo; exact (proj1 (HB Hr Hlo))|exists gs; split; assumption]].
+  pose proof (qs_qs _ _ _ _ HQS) as HQ. unfold QsI in HQ.
+  clear HB HQS. induction HQ as [|q gh qs gs' Hqi _ IH]; [constructor|]. constructor; [|exact IH].
+  pose proof (qi_ring _ _ _ _ _ Hqi) as R. pose proof (ri_length _ _ _ R). pose proof (ri_cap _ _ _ R).
+  destruct (ri_low _ _ _ R) as (L0 & L1 & L2).
+  destruct (fst gh) as [|x xs] eqn:E; [rewrite (L2 eq_refl) in *; unfold hlen in *; cbn [length] in *; lia|].
+  assert (X : x :: xs <> []) by discriminate. specialize (L1 X). lia.
 Qed.
 
 (* the link contract for player h from its owner (outputs outsA) to a receiver (operations opsB) *)
@@ -54,9 +76,9 @@ Proof.
   intros sparseA sparseB opsA opsB n wA wB dA dB kindsA kindsB epsA epsB nspecA nspecB pA pB outsA outsB
          HwA HdA HcA HwB HdB HcB Hn HlA HlB HpA HpB HA HB.
   destruct (sends_and_receipts_any sparseA opsA n wA dA kindsA epsA nspecA pA outsA HwA HdA HcA Hn HlA HpA HA)
-    as (gA & gsA & ExA & HQA & _ & HheldA & HroundsA & _ & _ & HkA).
+    as (gA & gsA & ExA & HQA & _ & HheldA & HroundsA & _ & _ & HkA & _).
   destruct (sends_and_receipts_any sparseB opsB n wB dB kindsB epsB nspecB pB outsB HwB HdB HcB Hn HlB HpB HB)
-    as (gB & gsB & ExB & HQB & _ & HheldB & _ & _ & HcvB & HkB).
+    as (gB & gsB & ExB & HQB & _ & HheldB & _ & _ & HcvB & HkB & _).
   exists gA, gB. split; [exact ExA|]. split; [exact ExB|].
   intros h e Hh HlocA HremB Hlink f HfA HcfA HfB HcfB.
   (* B: frame f of player h was simulated with the input held, which arrived with an operation *)
